@@ -77,6 +77,9 @@ type Step struct {
 	ChildInteg string `json:"cinteg,omitempty"` // "" none md5 sha1 sha256
 	ViaProp    bool   `json:"viaprop,omitempty"`
 	Side       string `json:"side,omitempty"` // which endpoint derives: I | R
+	// InPlace: the caller keeps ONE nonce buffer for the life of the IKE SA, refills it in place for
+	// every exchange and hands (a prefix of) it to the derivation.
+	InPlace bool `json:"inplace,omitempty"`
 
 	// dh / numbers
 	Group int `json:"group,omitempty"`
